@@ -121,13 +121,14 @@ func (p *Program) verifyFunc(c *Contract) *FuncResult {
 	// postconditions
 	rnames := resultNames(c, fn, nil)
 	var retConds []Term
+	perExit := map[string][]Term{} // post label -> its formula at each exit (in the order of rets), for "after ... assume"
 	for _, e := range c.Ensures {
 		if e.Assumed {
 			ex.trusted["assumed clause of "+res.Name+": "+e.Label+" ("+truncate(e.Src, 120)+")"] = true
 			continue
 		}
 		var goals []Term
-		for _, r := range rets {
+		for ri, r := range rets {
 			env := fr.baseEnv(r.st, fr.names, nil)
 			for k, v := range entryEnv.Vars {
 				if _, isState := stateSorts[k]; !isState {
@@ -173,12 +174,22 @@ func (p *Program) verifyFunc(c *Contract) *FuncResult {
 			t, err := env.tr(e.E)
 			if err != nil || t.Sort != "Bool" {
 				ex.unsup(fn.Pos(), "ensures %s: %v", e.Label, err)
+				perExit[e.Label] = append(perExit[e.Label], tTrue) // keeps the exits aligned; assuming "true" assumes nothing
 				continue
 			}
 			if e.OnSuccess {
 				if ev, ok := env.Vars["err"]; ok && ev.Sort == "Err" {
 					t = implies(eq(ev, Term{"NoErr", "Err"}), t)
 				}
+			}
+			perExit[e.Label] = append(perExit[e.Label], t)
+			for _, u := range c.After[e.Label] {
+				ut, ok := perExit[u]
+				if !ok || len(ut) <= ri || u == e.Label {
+					ex.unsup(fn.Pos(), "ensures %s: 'after' names %s, which is not a postcondition stated and translated before it", e.Label, u)
+					continue
+				}
+				t = implies(ut[ri], t)
 			}
 			goals = append(goals, implies(r.cond, t))
 		}
